@@ -110,6 +110,10 @@ class CppGen:
                 return "diplomat::span<%s>(%s, %d)" % (cty, a, n)
             if n == 0:
                 if v.get("null"):
+                    # an empty slice spelled either as (nullptr, 0) or as a default-constructed span (std::span() is empty)
+                    self.n += 1
+                    if self.n % 2:
+                        return "diplomat::span<%s>()" % ety
                     return "diplomat::span<%s>((%s*)nullptr, 0)" % (ety, ety)
                 self.pre.append("%s %s[1] = { 0 };" % (cty, a))
                 return "diplomat::span<%s>(%s, 0)" % (ety, a)
